@@ -85,8 +85,9 @@ class Uni:
     trial space (usub None: no trial function); udeg: polynomial degree of the trial space
     (2: a different space than the test space even for equal shapes)."""
 
-    def __init__(self, name, mixed, vsub, usub, coefs, ops, maxnodes, formops, keypairs=(), lits=(("two", 2),), udeg=1, complex_env=True, simulate=None, depth=None, exclude=(), nenv=2, pre=()):
+    def __init__(self, name, mixed, vsub, usub, coefs, ops, maxnodes, formops, keypairs=(), lits=(("two", 2),), udeg=1, complex_env=True, simulate=None, depth=None, exclude=(), nenv=2, pre=(), uplain=False):
         self.name = name
+        self.uplain = uplain  # mixed == "element": the trial space is an ordinary (not mixed) space
         self.pre = [(op, tuple(a), tuple(mi)) for op, a, mi in pre]  # extra initial nodes: (op, operand names, mi)
         self.mixed = mixed
         self.vsub = [tuple(s) for s in vsub]
@@ -110,13 +111,13 @@ class Uni:
             name=self.name, mixed=self.mixed, vsub=[list(s) for s in self.vsub], usub=None if self.usub is None else [list(s) for s in self.usub],
             coefs=[[n, list(s)] for n, s in self.coefs], ops=sorted(self.ops), maxnodes=self.maxnodes, formops=sorted(self.formops),
             keypairs=[list(k) for k in self.keypairs], lits=[[n, v] for n, v in self.lits], udeg=self.udeg, complex_env=self.complex_env,
-            exclude=sorted(self.exclude), nenv=self.nenv, pre=[[op, list(a), list(mi)] for op, a, mi in self.pre],
+            exclude=sorted(self.exclude), nenv=self.nenv, pre=[[op, list(a), list(mi)] for op, a, mi in self.pre], uplain=self.uplain,
         )
 
     @staticmethod
     def from_json(d):
         return Uni(d["name"], d["mixed"], d["vsub"], d["usub"], d["coefs"], d["ops"], d["maxnodes"], d["formops"], d["keypairs"],
-                   [tuple(x) for x in d["lits"]], d["udeg"], d["complex_env"], exclude=d.get("exclude", ()), nenv=d.get("nenv", 2), pre=d.get("pre", ()))
+                   [tuple(x) for x in d["lits"]], d["udeg"], d["complex_env"], exclude=d.get("exclude", ()), nenv=d.get("nenv", 2), pre=d.get("pre", ()), uplain=d.get("uplain", False))
 
     # ---- derived layout --------------------------------------------------------------------
     @staticmethod
@@ -135,7 +136,7 @@ class Uni:
             if mixed == "space":
                 for p, sh in enumerate(subs):
                     args.append((f"{nm}{p}", num, p + 1, sh))
-            elif mixed == "element":
+            elif mixed == "element" and not (num == 1 and self.uplain):
                 args.append((nm, num, 0, (sum(self._size(s) for s in subs),)))
             else:
                 assert len(subs) == 1
@@ -169,6 +170,8 @@ class Uni:
         pnames = {}  # names of the pieces: "v_0", "v_1", ...; of their components: "v[1]", ...
         if mixed == "element":
             for nm, num, subs in sides:
+                if num == 1 and self.uplain:
+                    continue
                 off = 0
                 aid = self.arg_id[nm]
                 for s, sh in enumerate(subs):
@@ -317,14 +320,14 @@ def mc_cfg(uni, ascoded, invariants=PROPERTY_INVS, dump=True):
     return "\n".join(lines) + "\n"
 
 
-def run_tlc(uni, seed, ascoded=False, invariants=PROPERTY_INVS, dump=True, timeout=900, workers=TLC_WORKERS):
+def run_tlc(uni, seed, ascoded=False, invariants=PROPERTY_INVS, dump=True, timeout=900, workers=TLC_WORKERS, small=False):
     """One TLC run on a universe: exhaustive, or -- when uni.simulate = N -- on N sampled programs
     (drawn here, seeded; TLC checks every step against the constructors' guards)."""
     coefval = uni.coef_values(seed)
     name = "MC_" + uni.name.replace("-", "_")
     programs = sample_programs(uni, seed, uni.simulate) if uni.simulate else None
     res = tlc.run(name, mc_cfg(uni, ascoded, invariants, dump), mc_text=mc_module(name, uni, coefval, ascoded, programs), mc_name=name,
-                  workers=workers, timeout=timeout, env={"JAVA_TOOL_OPTIONS": JAVA_OPTS},
+                  workers=workers, timeout=timeout, env={"JAVA_TOOL_OPTIONS": JAVA_OPTS + (" -XX:TieredStopAtLevel=1" if small else "")},  # small runs: JIT start-up dominates
                   extra_files={"programs.json": json.dumps(programs)} if programs else None)
     if programs:
         res.mode = "sampled"
@@ -492,7 +495,7 @@ class World:
         sides = [(0, uni.vsub, 1)] + ([(1, uni.usub, uni.udeg)] if uni.usub is not None else [])
         for num, subs, deg in sides:
             self.subspaces[num] = [space(sh, deg) for sh in subs]
-            if uni.mixed == "element":
+            if uni.mixed == "element" and not (num == 1 and uni.uplain):
                 self.side_space[num] = ufl.FunctionSpace(mesh, MixedElement([LagrangeElement(cell, deg, sh) for sh in subs]))
             elif uni.mixed == "space":
                 self.side_space[num] = ufl.MixedFunctionSpace(*self.subspaces[num])
@@ -507,7 +510,7 @@ class World:
             else:
                 a = ufl.TestFunction(S) if num == 0 else ufl.TrialFunction(S)
                 self.argobj.append(a)
-                if uni.mixed == "element":
+                if uni.mixed == "element" and not (num == 1 and uni.uplain):
                     for s, piece in enumerate(ufl.split(a)):
                         self.pieces[(num, s)] = piece
         for a, (nm, num, part, sh) in zip(self.argobj, uni.args):
@@ -1258,16 +1261,19 @@ def process_universe(ctx, mod, uni, coefval, res, corrupt=False, pid=PID):
     forms = {(repr(r["prog"]), repr(r["ints"])) for r in uniq}
     ctx.count("forms", len(forms))
     w = None
+    import importlib
+
+    nontrivial = getattr(importlib.import_module(mod), "nontrivial", lambda r: r["valid"])
     for r in uniq:
-        if r["valid"]:
+        if nontrivial(r):
             ctx.distinct(uni.name + repr(r["prog"]) + repr(r["ints"]) + r["fop"])
             if w is None and len(r["prog"]) >= 2 and r["arity"] == 2 and len(ctx.cov["samples"]) < 5 and not any(x["universe"] == uni.name for x in ctx.cov["samples"]):
                 w = World(uni, coefval)
-                ctx.sample({"universe": uni.name, "form": w.text(r), "operator": r["fop"], "refused": r["rej"], "input_table_env1": r["F"][0][0], "output_tables_env1": [o[0][0] for o in r["out"]] or r["blocks"]})
+                ctx.sample({"universe": uni.name, "form": w.text(r), "operator": r["fop"], "refused": r["rej"], "input_table_env1": r["F"][0][0], "output_tables_env1": [o[0][0] for o in r["out"]] or {"block_structure": r["shape"], "block_0_0_env1": r["blocks"][0][0][0][0]}})
     ops = {}
     for r in uniq:
         ops[r["fop"]] = ops.get(r["fop"], 0) + 1
-    ctx.cov.setdefault("universes", []).append({"universe": uni.name, "mode": res.mode, "forms": len(forms), "behaviours": len(uniq), "in_class": sum(1 for r in uniq if r["valid"]), "refused_by_model": sum(1 for r in uniq if any(r["rej"])), "per_operator": ops, "tlc_states": res.distinct})
+    ctx.cov.setdefault("universes", []).append({"universe": uni.name, "mode": res.mode, "forms": len(forms), "behaviours": len(uniq), "in_class": sum(1 for r in uniq if nontrivial(r)), "refused_by_model": sum(1 for r in uniq if any(r["rej"])), "per_operator": ops, "tlc_states": res.distinct})
     print(f"  [{uni.name}] tlc={res.wall:.1f}s states={res.distinct} forms={len(forms)} behaviours={len(uniq)} decode={t2 - t1:.1f}s replay={t3 - t2:.1f}s problems={len(bad)}", flush=True)
     return uniq, bad
 
@@ -1279,8 +1285,10 @@ def run_universes(ctx, mod, unis, pid=PID):
     bad_all = []
     if sum(1 for u in unis) > 2:
         get_pool()
-    with ThreadPoolExecutor(2) as ex:
-        futs = [(u, ex.submit(run_tlc, u, ctx.seed, False, PROPERTY_INVS, True, 1500, 2)) for u in unis]
+    # small exhaustive universes are dominated by JVM start-up: 4 runs x 1 worker; otherwise 2 x 2
+    par, wk = (4, 1) if ctx.tier == "quick" else (2, 2)
+    with ThreadPoolExecutor(par) as ex:
+        futs = [(u, ex.submit(run_tlc, u, ctx.seed, False, PROPERTY_INVS, True, 1500, wk, ctx.tier == "quick")) for u in unis]
         for u, fut in futs:
             coefval, res = fut.result()
             uniq, bad = process_universe(ctx, mod, u, coefval, res, pid=pid)
@@ -1295,7 +1303,7 @@ def run_universes(ctx, mod, unis, pid=PID):
 def as_coded_counterexample(ctx, uni, invariant, pid=PID):
     """The model with the AS-CODED constant must violate `invariant`: TLC exhibits the defect on the
     model (the verdict about the real code comes from the replay, not from this run)."""
-    coefval, res = run_tlc(uni, ctx.seed, ascoded=True, invariants=(invariant,), dump=False, workers=2)
+    coefval, res = run_tlc(uni, ctx.seed, ascoded=True, invariants=(invariant,), dump=False, workers=1, small=True)
     ctx.add_tlc(res)
     if res.outcome != "invariant" or res.violated != invariant:
         raise tlc_failure(uni, res)
